@@ -112,6 +112,16 @@ def gen_cases(tier, seed):
     for k in kex:
         add('tap', kex=k.decode(), enc='aes128-ctr', mac='hmac-sha2-256',
             cmp='none', rekey=rng.choice([0, 0, 2000]))
+    # short exchange hash x long keys: the derivation needs three or more
+    # hash blocks (RFC 4253 7.2 extension rule)
+    for k in kex:
+        if b'sha1' in k or b'sha224' in k:
+            add('tap', kex=k.decode(), enc='aes128-ctr',
+                mac='hmac-sha2-512', cmp='none', rekey=rng.choice([0, 2000]))
+            if b'chacha20-poly1305@openssh.com' in enc:
+                add('tap', kex=k.decode(),
+                    enc='chacha20-poly1305@openssh.com', mac='hmac-sha2-256',
+                    cmp='none', rekey=0)
     for e in enc:
         add('tap', kex='curve25519-sha256', enc=e.decode(),
             mac=rng.choice(mac).decode(), cmp='none', rekey=3000)
